@@ -10,6 +10,8 @@ DEMO=$SRC/seed_demo.py; [ -f "$DEMO" ] || DEMO=$(ls $SRC/demo* | head -1)
 WT=$(mktemp -d /tmp/seedchk.XXXXXX); rmdir $WT
 git -C /repo worktree add -q --detach $WT ${SEED_BASE:-HEAD} || exit 3
 cp $DEMO $WT/seed_demo.py
+# (some demos assert that circus is imported from the author's own worktree)
+sed -i "/assert circus.__file__.startswith('\/tmp\/seed/d" $WT/seed_demo.py
 cd $WT
 echo "== demo on the unchanged tree"; PYTHONPATH=$WT timeout 300 /venv/bin/python seed_demo.py > /tmp/seedchk_clean.log 2>&1; echo "exit $?"; tail -2 /tmp/seedchk_clean.log
 git apply $PATCH || { echo "PATCH DOES NOT APPLY"; git -C /repo worktree remove --force $WT; exit 3; }
